@@ -133,7 +133,7 @@ def metal (t : Ty) : Option Ref := ref .metal t
 mutual
 /-- every field below `t` has the same offset relative to the start of `t` under both rules -/
 def agreeIn : Ty → Bool
-  | .arr t n => (n ≤ 1 || stride .hlsl t == stride .metal t) && agreeIn t
+  | .arr t n => n == 0 || ((n ≤ 1 || stride .hlsl t == stride .metal t) && agreeIn t)
   | .struct ms => offsets .hlsl ms 0 == offsets .metal ms 0 && agreeInAll ms
   | _ => true
 def agreeInAll : Tys → Bool
@@ -185,7 +185,7 @@ def hlslDense (t : Ty) : Prop := size .hlsl t = leaf t
 
 mutual
 def vectorFree : Ty → Bool
-  | .vec _ n => n ≤ 1
+  | .vec _ n => n == 1
   | .arr t _ => vectorFree t
   | .struct ms => vectorFreeAll ms
   | _ => true
